@@ -47,6 +47,9 @@ mod absolute_to_relative_time {
     where
         S: Serializer,
     {
+        #[cfg(tarpc_verif)]
+        let deadline = deadline.duration_since(crate::verif_hooks::now());
+        #[cfg(not(tarpc_verif))]
         let deadline = deadline.duration_since(Instant::now());
         deadline.serialize(serializer)
     }
@@ -56,6 +59,9 @@ mod absolute_to_relative_time {
         D: Deserializer<'de>,
     {
         let deadline = Duration::deserialize(deserializer)?;
+        #[cfg(tarpc_verif)]
+        return Ok(crate::verif_hooks::now() + deadline);
+        #[cfg(not(tarpc_verif))]
         Ok(Instant::now() + deadline)
     }
 
@@ -87,6 +93,9 @@ mod absolute_to_relative_time {
 assert_impl_all!(Context: Send, Sync);
 
 fn ten_seconds_from_now() -> Instant {
+    #[cfg(tarpc_verif)]
+    return crate::verif_hooks::now() + Duration::from_secs(10);
+    #[cfg(not(tarpc_verif))]
     Instant::now() + Duration::from_secs(10)
 }
 
